@@ -37,7 +37,7 @@ QuadsLit == /\ \A s \in V : wa[s] = Window(a, s) /\ wx[s] = Window(x, s)
                   /\ Share(a, b, x, y) <=> ((wa[b] \cap wx[y]) # {})
                   /\ F2b(a, b, x, y) <=> (IF b = 0 \/ y = 0 THEN EndsAhead(a, b, x, y)
                                                             ELSE ShareW(a, b, x, y) /\ ~EndsAhead(a, b, x, y))
-                  /\ OverlapExactW(a, b, x, y) /\ RegionsOK(a, b, x, y)
+                  /\ OverlapExactW(a, b, x, y)
 (* R2 is exact in the sizes: for every other (b, y) except (0,1), (1,0) some placement is in F2b
    (the converse, R2 => ~F2b for every placement, is part of Quads).  Evaluated once, in the state a = 0, st = 0. *)
 SizesExact == (st = 0 /\ a = 0) =>
